@@ -130,6 +130,7 @@ def recording_sink():
             ntrace.EXT.append((2, connection_id))
         def message(self, connection_id, message):
             ntrace.EXT.append((3, connection_id))
+            ntrace.N['fwd'] += 1
     return RecSink()
 
 
